@@ -46,6 +46,7 @@ func osRemove(p string) error {
 
 func (d *drv) readEverywhere(f *fx, b blob, acKey string) {
 	r := d.r
+	nfail := len(d.rep.OracleFailures)
 	sz := fmt.Sprint(b.size)
 	mid := b.size / 2
 	d.bsRead(f, "blobs/"+b.hash+"/"+sz, 0, 0, -1, false)
@@ -85,7 +86,17 @@ func (d *drv) readEverywhere(f *fx, b blob, acKey string) {
 	})
 	other := f.pool[1]
 	whole := mkBlob(append(append([]byte{}, other.data...), b.data...), "")
-	for _, bd := range []*pb.Digest{nil, whole.dg()} {
+	spliceDigests := []*pb.Digest{nil, whole.dg()}
+	for _, of := range d.rep.OracleFailures[nfail:] {
+		if strings.HasPrefix(of.What, "panic") {
+			// reading this file panics; SpliceBlob would read it in its writer goroutine, where no
+			// recover() can keep the process (and this report) alive
+			spliceDigests = nil
+			d.rep.Count("splice-skipped-after-panic")
+			break
+		}
+	}
+	for _, bd := range spliceDigests {
 		bdd := bd
 		_ = f.c // the spliced blob must not be there already
 		d.call(fmt.Sprintf("SpliceBlob[%s] blob=%s chunks=[%s/%d, %s/%d (mutated file)]", f.mode, dtext([]*pb.Digest{bdd}), other.hash, other.size, b.hash, b.size), false, func(ctx context.Context) outcome {
@@ -203,7 +214,35 @@ var mutationTable = []mutation{
 		}
 		return b
 	}},
+	crafted("numOffsets 2^61+2, frame size and compression consistent", 1<<61+2, false),
+	crafted("numOffsets 2^61+5, frame size and compression consistent", 1<<61+5, false),
+	crafted("numOffsets 2^62+3, frame size and compression consistent", 1<<62+3, false),
+	crafted("numOffsets 2^63-1, frame size and compression consistent", math.MaxInt64, false),
+	crafted("numOffsets 2^60+7, frame size and compression consistent", 1<<60+7, false),
+	crafted("numOffsets 2^61+2, zstd with chunkSize 1 and uncompressedSize 2^61+1, frame size consistent", 1<<61+2, true),
+	crafted("numOffsets 2^63-1, zstd with chunkSize 1 and uncompressedSize 2^63-2, frame size consistent", math.MaxInt64, true),
 	{"file removed", nil},
+}
+
+// a header that passes every check of readHeader except the one that bounds numOffsets by the file
+// size: frame size = (numOffsets*8 + 21) in wrapping int64 arithmetic, and either compression =
+// Identity (no chunk-count check) or Zstandard with chunkSize 1 and uncompressedSize = numOffsets-1
+func crafted(name string, n int64, zstd bool) mutation {
+	return mutation{name, func(b []byte, _ interface{ Bytes(int) []byte }) []byte {
+		if len(b) < 46 {
+			return b
+		}
+		binary.LittleEndian.PutUint64(b[21:], uint64(n))
+		binary.LittleEndian.PutUint32(b[4:], uint32(uint64(n)*8+21))
+		if zstd {
+			b[16] = 1
+			binary.LittleEndian.PutUint32(b[17:], 1)
+			binary.LittleEndian.PutUint64(b[8:], uint64(n-1))
+		} else {
+			b[16] = 0
+		}
+		return b
+	}}
 }
 
 // mutateAndRead stores a fresh blob, an ActionResult that references it, damages the blob's file
@@ -277,6 +316,11 @@ func (d *drv) mutations(f *fx, n int) {
 // ---- deterministic scenarios, first in every run
 
 func (d *drv) regressions() {
+	// the disk layer refuses the upload before reading it: first the SpliceBlob whose result does not
+	// fit in the cache (its writer goroutine must still end), then every cause on every write path
+	d.refusal(refusalCauses[0], refusalPaths[0], 3)
+	d.refusalsAll(2)
+	d.rest("uploads refused by the disk layer, every cause on every write path")
 	for _, f := range d.fxs() {
 		// F18: a Write stream closed without any message
 		d.bsWrite(f, nil, -1, true, true)
@@ -360,6 +404,8 @@ func (d *drv) regressions() {
 		}
 	}
 	d.rest("the table of file mutations (this shard's quarter)")
+	d.proxyCorpus()
+	d.rest("damaged file images supplied by the proxy backend")
 }
 
 // the SpliceBlob writer/Put/select protocol on the real code: every way Put can end
@@ -472,8 +518,8 @@ type probeResult struct {
 
 type probeOut struct {
 	Text          string `json:"text"`
-	Returned      bool   `json:"returned"`       // the handler returned before the client's deadline
-	StillRunning  bool   `json:"still_running"`  // the handler was still running N seconds after the client had given up
+	Returned      bool   `json:"returned"`      // the handler returned before the client's deadline
+	StillRunning  bool   `json:"still_running"` // the handler was still running N seconds after the client had given up
 	AfterDeadline int    `json:"after_deadline_ms"`
 	Visited       int    `json:"visited"`
 }
